@@ -271,3 +271,92 @@ Proof.
   - destruct (IH (total + cnt) (if (0 <? limit) && (limit <? total + cnt) then Some inflight else None)) as [j Hj].
     exists (S j). simpl. rewrite Hj. reflexivity.
 Qed.
+
+(* ------------------------------------------------------------------ the per-repository limit keeps every repository *)
+Section RepoLimit.
+Variable re_match : N -> list N -> bool.
+Variable tolower : N -> N.
+Variable orbit : N -> list N.
+Variable c : corpus.
+Hypothesis Hagree : agree tolower orbit.
+Variable weight : nat -> list (list nat) -> nat.
+Notation n := (ndocs c).
+Notation sem := (sem re_match tolower c).
+Notation tvalid := (tvalid tolower orbit c).
+Notation lloop := (lloop re_match tolower c weight).
+
+(** With only ShardRepoMaxMatchCount set (what indexData.List does, with the value 1): for every live matching document
+    behind [last], a file of ITS repository is returned -- unless the repository's quota was already used up before. *)
+Theorem lloop_keeps_repos : forall fuel lim t st,
+  shard_max lim = 0 -> 0 < repo_max lim ->
+  tvalid (ls_last st) t -> cursor_next (ls_last st) <= n -> n - cursor_next (ls_last st) < fuel ->
+  forall k, cursor_next (ls_last st) <= k -> k < n -> live_at c k = true -> sem k t = true ->
+  (exists k', In k' (lloop fuel lim None t st) /\ repo_idx c k' = repo_idx c k) \/
+  (repo_idx c k = ls_repo st /\ repo_max lim <= ls_rcount st).
+Proof.
+  induction fuel as [|f IH]; intros lim t st Hs Hr Hv Hc Hf k Hk1 Hk2 Hlive Hsem; [lia|].
+  simpl.
+  set (nd1 := Nat.max (nextDoc c t) (cursor_next (ls_last st))).
+  set (pr := fun k => live_at c k && negb (repo_skip c lim st k)).
+  set (nd := first_from pr nd1 n).
+  assert (Hnd1k : nd1 <= k).
+  { unfold nd1. apply Nat.max_lub; [|exact Hk1].
+    apply (nextDoc_lower_bound re_match tolower orbit c Hagree (ls_last st) k t (lt_last_ge _ _ Hk1) Hk2 Hv Hsem). }
+  assert (Hnd1 : nd1 <= n) by lia.
+  destruct (first_from_spec pr nd1 n Hnd1) as [Hr1 [Hr2 Hr3]]. fold nd in Hr1, Hr2, Hr3.
+  destruct (le_lt_dec nd k) as [Hndk|Hknd].
+  2:{ (* k was skipped by the scan: only the repository quota can be the reason *)
+      right. specialize (Hr3 k ltac:(lia)). unfold pr in Hr3. rewrite Hlive in Hr3. simpl in Hr3.
+      apply negb_false_iff in Hr3. unfold repo_skip in Hr3. rewrite !andb_true_iff in Hr3. destruct Hr3 as [[_ H2] H3]. lia. }
+  assert (Hnd : nd < n) by lia.
+  destruct (n <=? nd) eqn:End; [lia|].
+  rewrite Hs. simpl.
+  pose proof (lt_last_ge (ls_last st) nd ltac:(unfold nd1 in Hr1; lia)) as Hll.
+  destruct (prepare_run re_match tolower orbit c Hagree (ls_last st) nd t Hll Hnd Hv) as [Hv' _].
+  destruct (accept_sem re_match tolower orbit c Hagree (ls_last st) nd t Hll Hnd Hv) as [Hacc _].
+  rewrite Hacc.
+  destruct (Nat.eq_dec k nd) as [->|Hne].
+  - rewrite Hsem. left. exists nd. split; [left; reflexivity | reflexivity].
+  - assert (Hk' : S nd <= k) by lia.
+    destruct (sem nd t) eqn:Esem.
+    + match goal with |- context [lloop f lim None (prepare c nd t) ?st'] =>
+        destruct (IH lim (prepare c nd t) st' Hs Hr Hv' ltac:(simpl; lia) ltac:(simpl; lia) k ltac:(simpl; lia) Hk2 Hlive ltac:(rewrite sem_prepare; exact Hsem)) as [[k' [Hin He]]|[He _]]
+      end.
+      * left. exists k'. split; [right; exact Hin | exact He].
+      * left. exists nd. split; [left; reflexivity|]. simpl in He. destruct (repo_idx c nd =? ls_repo st) eqn:E; [apply Nat.eqb_eq in E; congruence | congruence].
+    + match goal with |- context [lloop f lim None (prepare c nd t) ?st'] =>
+        destruct (IH lim (prepare c nd t) st' Hs Hr Hv' ltac:(simpl; lia) ltac:(simpl; lia) k ltac:(simpl; lia) Hk2 Hlive ltac:(rewrite sem_prepare; exact Hsem)) as [[k' [Hin He]]|[He Hq]]
+      end.
+      * left. exists k'. split; [exact Hin | exact He].
+      * right. simpl in He, Hq. destruct (repo_idx c nd =? ls_repo st) eqn:E; [apply Nat.eqb_eq in E; split; [congruence | exact Hq] | lia].
+Qed.
+End RepoLimit.
+
+Section RepoLimitSearch.
+Variable re_match : N -> list N -> bool.
+Variable tolower : N -> N.
+Variable orbit : N -> list N.
+Variable c : corpus.
+Variable freq : bool -> bool -> tri -> N.
+Hypothesis Hagree : agree tolower orbit.
+Hypothesis Hfreq : forall fn cs g, freq fn cs g = 0%N -> post orbit (ix_tris c fn) cs g = [].
+Variable weight : nat -> list (list nat) -> nat.
+
+(** indexData.List searches with ShardRepoMaxMatchCount = 1: every repository that has a file in the unlimited result
+    keeps at least one file *)
+Theorem search_repo_limit_keeps_repos : forall lim q, shard_max lim = 0 -> 0 < repo_max lim ->
+  forall k, In k (search re_match tolower orbit c freq q) ->
+  exists k', In k' (search_limited re_match tolower orbit c freq weight lim None q) /\ repo_idx c k' = repo_idx c k.
+Proof.
+  intros lim q Hs Hr k Hk. rewrite search_limited_unfold. rewrite (search_unfold re_match tolower orbit c freq q) in Hk. unfold search_body in Hk.
+  pose proof (pruned_valid re_match tolower orbit c freq Hagree Hfreq q) as Hv.
+  assert (G : forall t, tvalid tolower orbit c None t -> In k (loop re_match tolower c (S (ndocs c)) t None) ->
+              exists k', In k' (lloop re_match tolower c weight (S (ndocs c)) lim None t lstate0) /\ repo_idx c k' = repo_idx c k).
+  { intros t Ht Hin. rewrite (loop_exact re_match tolower orbit c Hagree (S (ndocs c)) t None Ht ltac:(simpl; lia) ltac:(simpl; lia)) in Hin.
+    apply filter_In in Hin. destruct Hin as [Hseq Hp]. apply in_seq in Hseq. simpl in Hseq. apply andb_true_iff in Hp. destruct Hp as [Hl Hsem].
+    destruct (lloop_keeps_repos re_match tolower orbit c Hagree weight (S (ndocs c)) lim t lstate0 Hs Hr Ht ltac:(simpl; lia) ltac:(simpl; lia)
+                k ltac:(simpl; lia) ltac:(lia) Hl Hsem) as [H|[_ H]]; [exact H | simpl in H; lia]. }
+  destruct (simp c q); try (destruct (prune _) as [t|]; [apply (G t Hv Hk) | destruct Hk]).
+  destruct b; [|destruct Hk]. destruct (prune _) as [t|]; [apply (G t Hv Hk) | destruct Hk].
+Qed.
+End RepoLimitSearch.
